@@ -27,3 +27,24 @@ claim(
     "Trusted: python ast, bfsa, spec/layout.json. Comment keys/values are as restricted in the property's quantifier.",
     "DESIGN.md section 4, C01",
 )
+claim(
+    "C08", "other",
+    "byte-layout interpretation of the frame builder; interval x congruence abstract domain for padding and frame length; reader-grammar extraction and guard normal forms for the parser; provenance rules for key slot and key derivation",
+    "Decides for every payload length (symbolically): frame = 'B', U8(len+2), P zero bytes, payload, U16be CRC with P in [1,16] and total length = 0 mod 16; the parser reads marker, length, seeks to len(ciphertext)-L, reads L-2 payload bytes and the CRC, rejects a wrong marker or CRC on every accepting path and returns exactly the payload; the customer key overwrites plaintext[pos:pos+10] before wrapping and is compared then blanked on unwrapping; the security-code key is SHA-256(code)[:16]; the registered adapter encrypts zero-padded CBC from a fresh mode object and its decrypt is length preserving. CRC values themselves are C15; AES is C16.",
+    "Trusted: python ast, bfsa (layout, length domain, guards). Assumes the cipher adapter rules of C16 for the block function.",
+    "DESIGN.md section 4, C08",
+)
+claim(
+    "C07", "other",
+    "data-provenance and effect analysis on the abstract-interpretation trace: single key source, must-flow into encrypt, relational normal form of the key-disagreement guard, identity flow of unknown blocks, no-caching effect rules for RNG and ephemeral keys",
+    "Decides: every auth block is packed with self.session_key (assigned only in the constructor) and the body is serialised under the same attribute; each pack wraps the key it is given; on reading, a raising guard `unwrapped key != key seen so far` (only conditioned on keys being present) covers every pair of blocks and the carried key is updated from the unwrapped one; blocks that cannot be opened are kept as (tag read, bytes read) and re-emitted unchanged; without a given key random_bytes(16) is evaluated per instance inside the constructor; the registered RNG is os.urandom(n) without caching; EccEncryptor.encrypt generates an ephemeral key on every path, uses it for both the emitted point and the DH input and never stores it. Statistical freshness is not decided.",
+    "Trusted: python ast, bfsa. os.urandom / SigningKey.generate randomness is assumed.",
+    "DESIGN.md section 4, C07",
+)
+claim(
+    "C02", "other",
+    "byte-layout / reader-grammar correspondence of the BEC2 header and of each auth-block kind's pack and unpack; provenance of selector, version and security code; length-preservation rule for the registered cipher's decrypt; type-consistency rule for the ENC comparison",
+    "Decides that header writer and reader are structural inverses ('BEC2\\0', TLV records in insertion order, 00 00, body offset = header length; reader loops until tag = len = 0), that InitCustKey / Update / InitEcc pack and unpack are inverse layouts whose selector, version and security code reach the attributes pack reads, that the ECIES block is 04 || point(64) || AES(key) on both sides with the same KDF, that the unwrapped key is the one the body is verified and decrypted with, that the cipher adapter's decrypt returns exactly the padded plaintext (no stripping: the static fact behind keys or CRCs ending in 0x00) and that the encrypted configuration component is decrypted on read. Executed round-trip value equality is not decided.",
+    "Trusted: python ast, bfsa. Session keys are KEY_SIZE = 16 bytes. BF3 body clauses under C01/C03/C05.",
+    "DESIGN.md section 4, C02",
+)
